@@ -55,8 +55,9 @@ class Parser:
     BIN = [["||"], ["&&"], ["|"], ["^"], ["&"], ["==", "!="], ["<", ">", "<=", ">="],
            ["<<", ">>"], ["+", "-"], ["*", "/", "%"]]
 
-    def __init__(self, toks):
+    def __init__(self, toks, type_words=None):
         self.t, self.i = toks, 0
+        self.type_words = TYPE_WORDS if type_words is None else type_words
 
     def peek(self):
         return self.t[self.i] if self.i < len(self.t) else None
@@ -94,7 +95,7 @@ class Parser:
             return None
         j += 1
         words = []
-        while j < len(self.t) and self.t[j][0] == "id" and self.t[j][1] in TYPE_WORDS:
+        while j < len(self.t) and self.t[j][0] == "id" and self.t[j][1] in self.type_words:
             words.append(self.t[j][1])
             j += 1
         if words and j < len(self.t) and self.t[j] == ("op", ")"):
